@@ -98,8 +98,8 @@ class Clause:
     required: tuple = ()  # class names that must be observed at least once
     rule: str = ""  # non-trivial rule, in words
     doc: str = ""
-    chunk: int = 1  # enum: cases handed to body per call is always 1; chunk only for hashing economy
     max_samples: int = 3
+    fuzz: int = 0  # thorough tier: additional coverage-guided runs (atheris) of the same strategy + oracle
 
 
 class Recorder:
@@ -396,6 +396,28 @@ def run_property(prop: str, tier: str, seed: int, only: Optional[list[str]] = No
             ns = 1
         for s in range(ns):
             joblist.append((prop, modname, c.name, tier, seed, s, ns))
+    fuzz_procs = []
+    fuzz_tmp = None
+    if tier == "thorough" and os.environ.get("VERIF_NO_FUZZ") != "1":
+        import subprocess
+        import tempfile
+
+        for c in clauses:
+            if c.fuzz and c.source == "given":
+                if fuzz_tmp is None:
+                    fuzz_tmp = tempfile.mkdtemp(prefix="hv-fuzz-")
+                for k, corpus_kind in enumerate(("empty",)):
+                    out = os.path.join(fuzz_tmp, f"{c.name}-{k}")
+                    try:
+                        p = subprocess.Popen(
+                            [sys.executable, "-m", "hv.fuzz", prop, c.name, str(c.fuzz), str(derive(seed, prop, c.name, "fuzz", k)), out],
+                            cwd=VERIF_DIR,
+                            stdout=subprocess.DEVNULL,
+                            stderr=subprocess.DEVNULL,
+                        )
+                        fuzz_procs.append((c, out, p))
+                    except OSError:
+                        pass
     jobs = max(1, min(jobs, len(joblist)))
     ctx = mp.get_context("fork")
     if jobs == 1:
@@ -405,6 +427,38 @@ def run_property(prop: str, tier: str, seed: int, only: Optional[list[str]] = No
             outs = pool.map(_job_entry, joblist, chunksize=1)
     for o in outs:
         results[o.clause].append(o)
+
+    fuzz_info: dict = {}
+    for c, out, p in fuzz_procs:
+        try:
+            p.wait(timeout=3600)
+        except Exception:  # noqa
+            p.kill()
+        st_path = os.path.join(out, "status.json")
+        info = {"engine": "atheris/libFuzzer via hypothesis.fuzz_one_input", "requested_runs": c.fuzz}
+        if os.path.exists(st_path):
+            with open(st_path) as f:
+                stt = json.load(f)
+            info.update({"evaluations": stt.get("evaluations", 0), "distinct_nontrivial": stt.get("nontrivial", 0), "completed": bool(stt.get("done"))})
+            if stt.get("failure"):
+                # a fuzzer finding counts only if the plain replay path confirms it
+                rec = Recorder()
+                try:
+                    run_body(c, stt["failure"]["case"], rec)
+                    info["unconfirmed_failure"] = stt["failure"].get("message", "")[:300]
+                except Violation as v:
+                    fr = JobResult(clause=c.name, shard=-1)
+                    fr.failure = {"case": stt["failure"]["case"], "message": "[found by the atheris supplement] " + str(v)}
+                    results[c.name].append(fr)
+                except HarnessError as e:
+                    info["unconfirmed_failure"] = str(e)[:300]
+        else:
+            info["skipped"] = "atheris unavailable or the fuzz process did not start (supplement is optional)"
+        fuzz_info[c.name] = info
+    if fuzz_tmp:
+        import shutil
+
+        shutil.rmtree(fuzz_tmp, ignore_errors=True)
 
     already = {v[0] for v in violations}
     for c in clauses:
@@ -456,6 +510,10 @@ def run_property(prop: str, tier: str, seed: int, only: Optional[list[str]] = No
             extra.update(o.extra)
         if extra:
             entry["extra"] = extra
+        if c.name in fuzz_info:
+            entry["coverage_guided_supplement"] = fuzz_info[c.name]
+            ev += int(fuzz_info[c.name].get("evaluations", 0))
+            entry["evaluations"] = ev
         cov_clauses[c.name] = entry
         total_eval += ev
         all_nontriv |= nt
